@@ -1065,6 +1065,8 @@ def run_impl_many(impl_dir, jobs):
 
 
 def run_model(progs, orders=None):
+    if not progs:
+        return []
     lines = [to_model(p, None if orders is None else orders[k]) for k, p in enumerate(progs)]
     out = common.run_model(PROP, "run", lines, timeout=900)
     res, cur = [], []
